@@ -19,6 +19,9 @@ EXPLANATION = (
     "non-scaling-stroke; a percentage stroke width resolves against sqrt((w^2 + h^2)/2). Not decided: the cascade outcome on "
     "generated documents; source order between different selectors of equal specificity (rules are stored per selector)."
 )
+TECHNIQUE = (
+    "static analysis (no execution): ordered specificity classification of style-assembly statements; def-use closure for comment-strip-before-match and accumulation order; source-order resolution of currentColor; canonical forms of stroke-width scaling"
+)
 ASSUMPTIONS = [
     "CSS 2.1 section 6.4.3 specificity: universal 0, type 1, class 10, type.class 11, id 100; the inline style attribute outranks all selectors.",
     "Only the selector forms the module supports are considered (no combinators, pseudo-classes or !important).",
